@@ -191,6 +191,34 @@ fn finish_cli(
     judge_output(std::fs::read(out_path).ok(), source, who)?;
     rep.count(&format!("roundtrips.{}", who), 1);
     rep.count("output_writes_observed", proc::writes_to(&o.shim, 0).len() as u64);
+    // One local clone in five is repeated onto an existing file of the source's size under
+    // a file-size limit slightly below it (RLIMIT_FSIZE, SIGXFSZ ignored): the tail of the
+    // output cannot be written. The run may fail; a run that reports success must still
+    // have produced the source ("yields an output with exactly the source's bytes").
+    if who == "cli-local" && (reader_sel >> 21) % 5 == 0 && source.len() > 3000 {
+        let dir = out_path.parent().unwrap();
+        let ap = dir.join("lim.cba");
+        let lim_out = dir.join("lim.out");
+        std::fs::write(&ap, &archive[..]).map_err(|e| e.to_string())?;
+        let junk: Vec<u8> = source.iter().map(|b| !b).collect();
+        std::fs::write(&lim_out, &junk).map_err(|e| e.to_string())?;
+        let cut = 1 + ((reader_sel >> 9) as usize) % 2000.min(source.len() / 2);
+        let cs = CloneSpec { archive: proc::p(&ap), output: lim_out.clone(), force: true, ..Default::default() };
+        let mut run = Run::new(dir, "clone-lim", scn::clone_args(&cs));
+        run.rlimit_fsize = Some((source.len() - cut) as u64);
+        let o = proc::run(&run);
+        rep.eval();
+        if o.exit == Exit::Timeout {
+            rep.inconclusive("watchdog (file-size limit)");
+        } else if o.exit.ok() {
+            judge_output(std::fs::read(&lim_out).ok(), source, "cli-local under a file-size limit that cuts off the tail of the output: success reported,")?;
+            rep.count("size_limited_clones.succeeded_exact", 1);
+        } else {
+            rep.count("size_limited_clones.failed_loudly", 1);
+        }
+        let _ = std::fs::remove_file(&ap);
+        let _ = std::fs::remove_file(&lim_out);
+    }
 
     // Reader 2: the library, over a fragmenting local reader or HTTP.
     let rt = crate::exec::rt_multi(2);
